@@ -9,7 +9,8 @@ Import ListNotations RecordSetNotations.
 Open Scope Z_scope.
 
 (* ---- the extension type table --------------------------------------------------------------------- *)
-Definition xt_inv (c : core) : Prop := NoDup (ext_num c) /\ length (ext_num c) = length (ext_str c).
+Definition xt_inv (c : core) : Prop :=
+  NoDup (ext_num c) /\ length (ext_num c) = length (ext_str c) /\ NoDup (ext_str c).
 
 Lemma index_of_nth_error x l n : index_of x l = Some n -> nth_error l n = Some x.
 Proof.
@@ -59,13 +60,20 @@ Proof.
   intros y [<-|Hy]; [lia|apply H2; exact Hy].
 Qed.
 
+Lemma index_of_none_notin x l : index_of x l = None -> ~ In x l.
+Proof.
+  induction l as [|y r IH]; cbn; intro H; [tauto|].
+  destruct (x =? y) eqn:E; [discriminate|]. destruct (index_of x r); [discriminate|].
+  intros [H1|H1]; [subst; rewrite Z.eqb_refl in E; discriminate|exact (IH eq_refl H1)].
+Qed.
+
 Lemma ext_type_id_spec c s :
   xt_inv c ->
   xt_inv (fst (ext_type_id c s)) /\ ext_type_str (fst (ext_type_id c s)) (snd (ext_type_id c s)) = Some s.
 Proof.
-  intros [Hn Hl]. unfold ext_type_id.
+  intros (Hn & Hl & Hs). unfold ext_type_id.
   destruct (index_of s (ext_str c)) as [n|] eqn:E; cbn [fst snd].
-  - split; [split; assumption|]. unfold ext_type_str.
+  - split; [repeat split; assumption|]. unfold ext_type_str.
     pose proof (index_of_nth_error _ _ _ E) as G.
     assert (Hlt : (n < length (ext_num c))%nat) by (rewrite Hl; apply nth_error_Some; congruence).
     assert (G2 : nth_error (ext_num c) n = Some (nth n (ext_num c) 0)) by (apply nth_error_nth'; exact Hlt).
@@ -75,9 +83,10 @@ Proof.
     { intro H. subst id. destruct (ext_num c) as [|y r] eqn:En; [destruct H|].
       destruct (fold_max_ge (y :: r) 0) as [_ H2]. specialize (H2 _ H). unfold max_list in H. unfold max_list in *. lia. }
     split.
-    + split; cbn.
+    + split; [|split]; cbn.
       * apply NoDup_snoc; assumption.
       * rewrite !app_length. cbn. lia.
+      * apply NoDup_snoc; [exact Hs|apply index_of_none_notin; exact E].
     + unfold ext_type_str. cbn. rewrite (index_of_snoc_new _ _ Hfresh).
       rewrite Hl. rewrite nth_error_app2 by lia. rewrite Nat.sub_diag. reflexivity.
 Qed.
@@ -103,10 +112,10 @@ Definition lpart (c : core) := (trig_l c, lset_l c, linc_l c, ext_num c, ext_str
 Lemma lab_inv_transfer c c' :
   core_inv c' -> ext_l c' = ext_l c -> lpart c' = lpart c -> lab_inv c -> lab_inv c'.
 Proof.
-  intros I E P (_ & W & K1 & K2 & K3 & X1 & X2). unfold lpart in P. inversion P as [[P1 P2 P3 P4 P5]].
+  intros I E P (_ & W & K1 & K2 & K3 & X1 & X2 & X3). unfold lpart in P. inversion P as [[P1 P2 P3 P4 P5]].
   split; [exact I|]. split; [rewrite E; exact W|]. split; [rewrite P1; exact K1|].
   split; [rewrite P2; exact K2|]. split; [rewrite P3; exact K3|].
-  split; [rewrite P4; exact X1|rewrite P4, P5; exact X2].
+  split; [rewrite P4; exact X1|split; [rewrite P4, P5; exact X2|rewrite P5; exact X3]].
 Qed.
 
 Lemma register_adc_lpart c n dw de fr ph dd : lpart (fst (fst (register_adc c n dw de fr ph dd))) = lpart c.
@@ -674,4 +683,35 @@ Proof.
     as (ext & S1 & S2).
   rewrite (decode_ext_is_stored _ _ _ Hd) in S1. inversion S1. subst ext.
   apply ext_perm_labels_trigs. exact S2.
+Qed.
+
+(* ---- the numeric id of a new extension type never collides, whatever the order of the id list ------- *)
+Theorem ext_type_id_fresh : forall c s,
+  index_of s (ext_str c) = None -> ~ In (snd (ext_type_id c s)) (ext_num c).
+Proof.
+  intros c s E. unfold ext_type_id. rewrite E. cbn [snd].
+  intro H. destruct (ext_num c) as [|y r] eqn:En; [destruct H|].
+  destruct (fold_max_ge (y :: r) 0) as [_ H2]. specialize (H2 _ H). unfold max_list in *. lia.
+Qed.
+
+(* known names keep their number; a store loaded from a file (ids in any order) satisfying [xt_inv]
+   therefore maps every name to one number and every number to one name, before and after *)
+Theorem ext_type_id_known : forall c ty s,
+  xt_inv c -> ext_type_str c ty = Some s -> ext_type_id c s = (c, ty).
+Proof.
+  intros c ty s (Hn & Hl & Hs) H. unfold ext_type_str in H.
+  destruct (index_of ty (ext_num c)) as [n|] eqn:E; [|discriminate].
+  unfold ext_type_id. rewrite (index_of_nodup _ Hs _ _ H).
+  pose proof (index_of_nth_error _ _ _ E) as G.
+  f_equal. apply nth_error_nth. exact G.
+Qed.
+
+Theorem ext_type_id_last_refuted :
+  exists c s, xt_inv c /\ index_of s (ext_str c) = None /\
+    In (snd (ext_type_id_last c s)) (ext_num c) /\
+    ext_type_str (fst (ext_type_id_last c s)) (snd (ext_type_id_last c s)) <> Some s.
+Proof.
+  exists ((core_init qc0 qc0 qc0 qc0) <| ext_num := [2; 1] |> <| ext_str := [XS_LABELSET; XS_LABELINC] |>), XS_TRIGGERS.
+  split; [|split; [reflexivity|split; [cbn; auto|cbn; discriminate]]].
+  repeat split; cbn; try reflexivity; repeat constructor; cbn; intuition discriminate.
 Qed.
